@@ -300,6 +300,7 @@ pub fn run_one(cfg: &ForestCfg, run_index: u64, run_seed: u64, known: &KnownFile
         None
     };
 
+    let mut queued: std::collections::VecDeque<Op> = std::collections::VecDeque::new();
     let total_steps = prof.steps + prof.clients; // one initial tree per client
     for stepno in 0..total_steps {
         // ---- scheduler
@@ -328,8 +329,19 @@ pub fn run_one(cfg: &ForestCfg, run_index: u64, run_seed: u64, known: &KnownFile
                 text: gen::gen_xml_text(&mut rng, fragment),
                 kind: if fragment { ParseKind::Fragment } else { ParseKind::Doc },
             }
+        } else if let Some(op) = queued.pop_front() {
+            stats.inc("probe/motif_calls");
+            op
         } else {
-            gen::gen_op(&w.model, &mut rng, &prof, &clients[c].home)
+            if prof.motif_pct > 0 && rng.pct(prof.motif_pct) {
+                if let Some(ops) = gen::gen_motif(&w.model, &mut rng, &clients[c].home) {
+                    queued.extend(ops);
+                }
+            }
+            match queued.pop_front() {
+                Some(op) => op,
+                None => gen::gen_op(&w.model, &mut rng, &prof, &clients[c].home),
+            }
         };
         sid += 1;
         let t = TraceOp { sid, client: c as u8, op };
